@@ -224,9 +224,9 @@ def run():
         "model time: tick = T/4, maximal progress (timer expiries, message arrivals and the goroutine steps they enable take no time); "
         "the exact boundary (pong delay T-1, T, T+1 ticks; pong racing the timeout) is explored by TLC only",
         "replay stays away from the boundary: real pong delays 0, T/2 (answered), 3T, never (not answered); I = 200 ms, T = 100 ms "
-        "(thorough also 300/150); only upper bounds are asserted, slack = 250 ms + 50 %",
-        "detection bound is counted from the broker's receipt of the last answered ping (I >= T in all replayed configurations; "
-        "for I < T the model shows the bound max(I, pong delay) + T from that ping, I + T from the last pong / the moment of silence)",
+        "(thorough also 300/150 and 150/200); only upper bounds are asserted, slack = 250 ms + 50 %",
+        "detection bound is counted from the broker's receipt of the last answered ping (pong delay <= I in all replayed configurations; "
+        "in general the model shows the bound max(I, pong delay) + T from that ping, I + T from the last pong / the moment of silence)",
         "whole-second resolution = truncation (encoding/convert: uint32(d.Seconds())): 2.5 s is announced as 2 s, 1.5 s as 1 s, "
         "sub-second values as 0; an unset (zero) interval / timeout is replaced by the defaults 10 s / 1 s before announcing",
         "recovery bound: the first redial attempt of internal/retry is immediate; after n failed attempts the back-off is "
@@ -235,7 +235,7 @@ def run():
         "recorded a stall between 3T before and 50 ms after that close; the stall count is reported in the clause statistics",
     ]
     # ---- L1: exhaustive, per interval (I < T, I = T, I > T), exact boundary delays
-    for ni in ([4, 8] if quick else [2, 4, 6, 8, 12]):
+    for ni in ([4, 8] if quick else [2, 3, 4, 6, 8, 12]):
         cfg = write_cfg("Keepalive_run_x%d.cfg" % ni, ni, horizon=40 if ni > 2 else 28)
         ctx.l1("Keepalive", cfg, timeout=600)
         rm(cfg)
@@ -254,40 +254,47 @@ def run():
             raise Inconclusive("sensitivity: variant %s should violate %s, TLC says %s" % (variant, inv, r.violated or r.error or "no error"))
         log("[C15] L1 sensitivity: variant %s violates %s as expected" % (variant, inv))
     # ---- scripts: every complete behaviour of the generator configuration (real delays only, k in {0, 1, 3})
-    NI, HZ = 8, 36
-    gcfg = write_cfg("Keepalive_run_gen.cfg", NI, delays=(0, 2, 12), delays2=(0,), late=(1, 2, 4), lateconns=(1,), anytime=False, horizon=HZ,
-                     bat=(1, 10), bids=(CUR, 7), maxb=1, aat=(9,), maxapp=1, mode="gen")
-    r = ctx.tlc("Keepalive", gcfg, workers=1, timeout=600)
-    rm(gcfg)
-    if r.violated or r.error:
-        raise Inconclusive("script generation failed: %s" % (r.violated or r.error))
-    scripts = scripts_of(r)
-    log("[C15] %d distinct environment scripts from Keepalive.tla (%d states)" % (len(scripts), r.distinct))
-    ctx.cov["states"] += r.distinct
-    ctx.cov["transitions"] += r.generated
-    if not scripts:
-        raise Inconclusive("no scripts generated")
-    # core: the scripts without broker pings / application requests (pure pong patterns), then a seed-selected sample
-    plain = [s for s in scripts if all(op["a"] in ("pong", "recover") for op in s)]
-    dead = [s for s in plain if any(op["a"] == "recover" for op in s)]
-    alive = [s for s in plain if s not in dead]
-    others = [s for s in scripts if s not in plain]
-    configs = [(200, 100)] if quick else [(200, 100), (300, 150)]
+    def gen_scripts(ni, hz, bat, aat):
+        gcfg = write_cfg("Keepalive_run_gen%d.cfg" % ni, ni, delays=(0, 2, 12), delays2=(0,), late=(1, 2, 4), lateconns=(1,), anytime=False,
+                         horizon=hz, bat=bat, bids=(CUR, 7), maxb=1, aat=aat, maxapp=1, mode="gen")
+        r = ctx.tlc("Keepalive", gcfg, workers=1, timeout=600)
+        rm(gcfg)
+        if r.violated or r.error:
+            raise Inconclusive("script generation failed: %s" % (r.violated or r.error))
+        scripts = scripts_of(r)
+        log("[C15] %d distinct environment scripts from Keepalive.tla with I = %d ticks (%d states)" % (len(scripts), ni, r.distinct))
+        ctx.cov["states"] += r.distinct
+        ctx.cov["transitions"] += r.generated
+        if not scripts:
+            raise Inconclusive("no scripts generated")
+        # core: the scripts without broker pings / application requests (pure pong patterns); the rest is sampled by seed
+        plain = [s for s in scripts if all(op["a"] in ("pong", "recover") for op in s)]
+        dead = [s for s in plain if any(op["a"] == "recover" for op in s)]
+        alive = [s for s in plain if s not in dead]
+        others = [s for s in scripts if s not in plain]
+        return scripts, dead, alive, others
+
+    # (I ms, T ms, I in ticks, horizon, broker-ping instants, application-request instants, share of the scripts replayed)
+    configs = [(200, 100, 8, 36, (1, 10), (9,), "core")] if quick else \
+              [(200, 100, 8, 36, (1, 10), (9,), "all"), (300, 150, 8, 36, (1, 10), (9,), "sample"), (150, 200, 3, 20, (1, 5), (4,), "sample")]
     scs = []
-    for (I, T) in configs:
-        first = (I, T) == configs[0]
-        if quick:
+    gens = {}
+    for (I, T, NI, HZ, bat, aat, share) in configs:
+        if (NI, HZ) not in gens:
+            gens[(NI, HZ)] = gen_scripts(NI, HZ, bat, aat)
+        scripts, dead, alive, others = gens[(NI, HZ)]
+        if share == "core":
             chosen = dead + pick(alive, 4, ctx.seed) + pick(others, 22, ctx.seed)
-        elif first:
-            chosen = dead + pick(alive, 24, ctx.seed) + pick(others, 200, ctx.seed)
+        elif share == "all":
+            chosen = scripts
         else:
-            chosen = pick(dead, 12, ctx.seed) + pick(alive, 6, ctx.seed) + pick(others, 60, ctx.seed)
+            chosen = pick(dead, 12, ctx.seed) + pick(alive, 6, ctx.seed) + pick(others, 50, ctx.seed)
         for k, sc in enumerate(chosen):
             scs.append(from_script("C15/model/%d-%d/%d" % (I, T, k), sc, I, T, NI, HZ))
         for pat in (["zero", "half", "alt"] if quick else ["zero", "half", "alt", "alt2"]):
             scs.append(live("C15/live/%d-%d/%s" % (I, T, pat), I, T, pat))
         for k in ([0, 1, 3] if quick else [0, 1, 2, 3, 5]):
-            for frac in ([2] if quick else [0, 2, 3]):
+            for frac in ([2] if quick else [0, 2, 3] if share == "all" else [1]):
                 for full in (False, True):
                     for app in ([True] if quick else [False, True]):
                         scs.append(silent_mid("C15/silent/%d-%d/k%d-f%d-%s-%s" % (I, T, k, frac, "all" if full else "pong", "app" if app else "idle"),
@@ -310,10 +317,10 @@ def run():
     cl = ctx.cov["clauses"]
     if not ctx.violations and not (cl.get("detectedInTime") and cl.get("liveIncs") and cl.get("bpongs") and cl.get("recovered") and cl.get("announces")):
         raise Inconclusive("vacuous run: %s" % json.dumps(cl))
-    ctx.finish(rule="L1: Keepalive.tla exhaustive for I in {T/2, T, 1.5T, 2T, 3T} with pong delays {0, T/2, T-1, T, T+1 tick, never}, silence at any "
+    ctx.finish(rule="L1: Keepalive.tla exhaustive for I in {T/2, 3T/4, T, 1.5T, 2T, 3T} (quick: T, 2T) with pong delays {0, T/2, T-1, T, T+1 tick, never}, silence at any "
                     "instant, broker pings with colliding ids, application requests; scenarios = every complete environment script of the "
                     "generator configuration (delays 0, T/2, 3T, never; k in {0,1,3}; broker ping / application request at scripted instants) "
-                    "[quick: all dead-peer pong patterns + seed-selected sample], plus live windows of 10 intervals under application "
+                    "[quick: all dead-peer pong patterns + seed-selected sample; thorough: all 540 at 200/100 ms, samples at 300/150 and 150/200 (I < T)], plus live windows of 10 intervals under application "
                     "traffic, silence at scripted moments (pong-only / total, idle / request in flight), failing redials, broker ping "
                     "bursts, announcement configurations; non-trivial = monitor verdict produced, vacuity guarded by clause statistics",
                exhaustive=False)
